@@ -281,7 +281,8 @@ def make_replay(h, prop, tier, logdir):
             break
     open(os.path.join(logdir, f"{h.name}.playback-gen.log"), "w").write(out)
     tests = []
-    blk = re.compile(r"/// Test generated for harness `[^`]*`\n///\n/// Check for `([a-z_]+)`: (.*?)\n\n#\[test\]\nfn (kani_concrete_playback_[A-Za-z0-9_]+)\(\)\s*\{.*?\n\}\n", re.S)
+    # tolerant of trailing blanks after the header lines and of rustfmt-wrapped fn headers
+    blk = re.compile(r"/// Test generated for harness `[^`]*`[ \t]*\n///[ \t]*\n/// Check for `([a-z_]+)`: (.*?)\n[ \t]*\n#\[test\]\nfn (kani_concrete_playback_[A-Za-z0-9_]+)\(\)\s*\{.*?\n\}\n", re.S)
     for root, _, files in os.walk(os.path.join(rdir, "src")):
         for f in files:
             if not f.endswith(".rs"):
